@@ -150,7 +150,9 @@ class CSSCharsetRule(cssrule.CSSRule):
         else:
             try:
                 codecs.lookup(encoding)
-            except LookupError:
+            except (LookupError, ValueError):
+                # (ValueError: names the codec registry does not even look
+                # up, e.g. with a NUL or a lone surrogate from an escape)
                 self._log.error('CSSCharsetRule: Unknown (Python) encoding %r.'
                                 % encoding)
             else:
